@@ -348,10 +348,29 @@ def _reads(n, name):
 def static_features(prog):
     """program-level facts read off the spec-published tree (used for compile-time rejections, which have no call)"""
     f = {"literal_unpack_length_mismatch": False, "literal_tuple_const_index_out_of_range": False,
-         "literal_unpack_trailing_star_gets_nothing": False, "class_body_comprehension_with_closure_over_its_variable": False}
+         "literal_unpack_trailing_star_gets_nothing": False, "class_body_comprehension_with_closure_over_its_variable": False,
+         "genexpr_walrus_to_global_and_inner_global_decl": False}
+    # f declares `global g`: a := to g inside a generator expression of f, plus an inner def that declares `global g` too
+    body = prog["a"][0]["a"]
+    inner_global = any(st["t"] == "def" and st["w"] and st["w"][0] == "global" for st in body)
+    def f_level(n):
+        yield n
+        if n["t"] in ("def", "lambda", "class"):
+            return
+        for c in n["a"]:
+            if isinstance(c, dict):
+                for x in f_level(c):
+                    yield x
+    for st in body:
+        if st["t"] in ("def", "class") or (st["t"] == "block" and any(c["t"] == "class" for c in st["a"])):
+            continue
+        for n in f_level(st):
+            if n["t"] == "comp" and n["s"] == "gen" and any(x["t"] == "walrus" and x["s"] == "g" for x in walk(n)):
+                f["genexpr_walrus_to_global_and_inner_global_decl"] = inner_global
     for n in walk(prog):
-        if n["t"] == "assign" and n["a"][0]["t"] == "tup" and n["a"][1]["t"] in ("tuple", "list"):
-            tg, nv = n["a"][0]["a"], len(n["a"][1]["a"])
+        if n["t"] == "assign" and n["a"][0]["t"] == "tup" and n["a"][1]["t"] in ("tuple", "list", "str"):
+            tg = n["a"][0]["a"]
+            nv = len(n["a"][1]["s"]) if n["a"][1]["t"] == "str" else len(n["a"][1]["a"])
             star = any(c["t"] == "star" for c in tg)
             if (star and nv < len(tg) - 1) or (not star and nv != len(tg)):
                 f["literal_unpack_length_mismatch"] = True
